@@ -31,6 +31,15 @@ theorem fame_independent_of_decider {ps : List Nat} {U : Dag.E → Prop} (H : Da
     (h : Dag.decision ps y x = some b) (h' : Dag.decision ps y' x = some b') : b = b' :=
   Dag.dag_fame_agreement H hx hy hy' h h'
 
+/-- **subdag_prefix (fame)**: a node that holds a downward-closed subset `A` of what another view `B`
+    holds, and has declared round `r` decided, already knows the final famous witnesses of `r`: no
+    event `B` has in addition changes that set -/
+theorem famous_set_of_decided_round_is_final {ps : List Nat} {U A B : Dag.E → Prop} (H : Dag.Hist ps U)
+    (hA : Dag.View A U) (hB : Dag.View B U) (hAB : ∀ e, A e → B e) {r : Int}
+    (dA : Dag.RoundDecided ps A r) (x : Dag.E) (hBx : B x) (hw : Dag.wit ps x = true) (hr : Dag.round ps x = r) :
+    Dag.DecidedIn ps B x true ↔ Dag.FamousIn ps A r x :=
+  Dag.famous_set_final H hA hB hAB dA x hBx hw hr
+
 /-- frames are ordered by a key that is independent of the insertion order: whatever order the
     round's events were received in, the committed order is the same -/
 theorem frame_order_independent_of_reception (l₁ l₂ : List Ev) (hp : l₁.Perm l₂)
